@@ -79,6 +79,12 @@ def plan(run):
         for route in ('segy', 'segy-iops', 'segy-ibm'):
             for rate, bs in ((16, None), (32, (8, 8, 16))):
                 P.append((route, shape, rate, bs, None))
+    # crossline and sample extents aligned to the blockshape, inline extent not (a plane-set buffer without x/z padding)
+    for shape, rate, bs in (((6, 8, 64), 32, (4, 4, -1)), ((5, 4, 128), 16, (4, 4, -1)), ((9, 8, 16), 32, (8, 8, 16)), ((9, 16, 8), 16, (16, 16, -1)),
+                            ((5, 8, 256), 8, None)):
+        for route in ('numpy', 'segy', 'segy-iops', 'segy-ibm'):
+            if not (route == 'numpy' and bs is None):
+                P.append((route, shape, rate, bs, None))
     shapes2 = [(9, 70), (4, 8), (21, 33), (2, 2)] if quick else [(9, 70), (4, 8), (21, 33), (2, 2), (16, 64), (17, 65), (33, 300)]
     for shape in shapes2:
         for rate, bs in ((8, (1, 4, -1)), (16, (1, 16, -1)), (4, None), (32, (1, 8, 128))):
